@@ -151,7 +151,8 @@ def kpParseOp (toks : List String) : Option String := do
     | "garbage" => some (Content.badMls, pkA, refR, refR)
     | "trunc" => some (Content.badMls, pkA, refR, refR)
     | _ => none
-  let subst := [("$REF", hexEnc dollar), ("$REFU", upper (hexEnc dollar)), ("$REFX", hexEnc (refX dollar))]
+  let subst := [("$REF", hexEnc dollar), ("$REFU", upper (hexEnc dollar)), ("$REFX", hexEnc (refX dollar)),
+                ("$REFP", hexEnc (dollar.take (dollar.length / 2))), ("$REFQ", hexEnc (dollar.take 1)), ("$REFE", hexEnc (dollar ++ [171]))]
   let tags ← parseTags subst (← field toks "tags")
   let ev : KpEvent := { kind := kind, tags := tags, content := content, author := author, credIdentity := cred, kpRef := cref }
   pure (showKpRes (parseKp stdEnv ev))
